@@ -4,6 +4,7 @@ from .. import persist
 from .persist_common import run_persist_property
 
 MODULE = "KyroModel.Theorems.C01"
+ALSO = ("KyroModel.Theorems.C01Periodic",)
 TRUSTED = [
     "Lean 4 kernel; axioms allowed: propext, Classical.choice, Quot.sound (audited per theorem)",
     "model KyroModel/Persist/{Model,Ops}.lean at the granularity of logical actions; tie: for every effect boundary of every op the real strict recover on the materialised directory is compared with the model's recovery of the corresponding action prefix",
@@ -97,6 +98,31 @@ def periodic_oracle(case):
     return fails
 
 
+def periodic_mismatch(cd):
+    """model (Persist/Periodic.lean through the driver) vs implementation on one history: acknowledgement lines must be equal;
+    at a power-loss point every outcome the real code can recover to must be an outcome of the model, and the model's
+    smallest outcome (synced frames only) must be among the real ones.  Returns None when the model abstains (byte-threshold
+    rotation, snapshots), (idx, msg) for the first difference, (0, None) when they agree."""
+    if cd["model"] and cd["model"][0].startswith("unmodelled"):
+        return None
+    for i, (l, r, m) in enumerate(zip(cd["raw"], cd["impl"], cd["model"])):
+        if l.startswith("timer"):
+            if r.split(" ")[0] != m.split(" ")[0]:
+                return (i, "`%s`: implementation `%s`, model `%s`" % (l, r, m))
+        elif l == "ploss":
+            if "states=" not in r or "states=" not in m:
+                return (i, "`ploss`: implementation `%s`, model `%s`" % (r, m))
+            rs, ms = r.split("states=", 1)[1].split("#"), m.split("states=", 1)[1].split("#")
+            extra = [x for x in rs if x not in ms]
+            if extra:
+                return (i, "power loss: the implementation can be left with %s, which the model does not admit (model: %s)" % (extra, ms))
+            if ms[0] not in rs:
+                return (i, "power loss: the model's synced-only outcome %s is not among the implementation's %s (the code syncs more than the model says)" % (ms[0], rs))
+        elif r != m:
+            return (i, "`%s`: implementation `%s`, model `%s`" % (l, r, m))
+    return (0, None)
+
+
 def periodic_extra(rep, thorough, seed):
     from .. import corr
     rc, out, err = common_run(["python3", os.path.join(ROOT, "translators", "xlate_timer.py")])
@@ -117,10 +143,19 @@ def periodic_extra(rep, thorough, seed):
     findings, nstates, checks = [], 0, 0
     flat = [l for c in cases for l in c]
     ann, res, herr, hrc = run_harness("periodic", flat, timeout=1800)
+    mres, merr, mrc = run_driver("periodic", flat, timeout=600)
     k = 0
+    compared = mism = 0
     for c in cases:
-        r = res[k:k + len(c)]; k += len(c)
-        cd = {"raw": c, "ann": c, "impl": r + ["<missing>"] * (len(c) - len(r)), "model": r, "engine": "periodic"}
+        r = res[k:k + len(c)]; mr = mres[k:k + len(c)]; k += len(c)
+        cd = {"raw": c, "ann": c, "impl": r + ["<missing>"] * (len(c) - len(r)), "model": mr + ["<missing>"] * (len(c) - len(mr)), "engine": "periodic"}
+        d = periodic_mismatch(cd)
+        if d is not None:
+            compared += d[0] >= 0
+            if d[0] >= 0 and d[1]:
+                mism += 1
+                findings.append({"kind": "mismatch", "engine": "periodic", "case": cd, "idx": d[0], "msg": d[1],
+                                 "sig": {"engine": "periodic", "kind": "mismatch"}, "pred": None})
         for l, x in zip(c, cd["impl"]):
             if l == "ploss" and "states=" in x:
                 checks += 1; nstates += len(x.split("states=", 1)[1].split("#"))
@@ -128,6 +163,7 @@ def periodic_extra(rep, thorough, seed):
             findings.append({"kind": "oracle", "engine": "periodic", "case": cd, "idx": idx, "msg": msg,
                              "sig": {"engine": "periodic", "kind": kind}, "pred": None})
     return findings, {"periodic": {"timer_calls_extracted_from_source": calls, "histories": len(cases), "power_loss_checks": checks,
+                                   "histories_compared_with_model": compared, "model_disagreements": mism,
                                    "distinct_outcomes_seen": nstates,
                                    "rule": "TieredEngine with persistence under FsyncPolicy::Periodic(50|100 ms), log rotation off / after every write / every few "
                                            "writes, clean restarts (shutdown flush, drop, strict TieredEngine::recover) and a virtual monotonic clock; the server's "
@@ -153,4 +189,5 @@ def run(tier, seed, replay):
         "last fsync/fdatasync or everything written, and every prefix of the directory changes (create/rename/unlink) made since "
         "the last directory fsync; each distinct directory is recovered by the real code and must also be acked or acked+in-flight",
         ["power loss: whole-file granularity for un-synced bytes (synced-only or all), suffixes of un-synced directory changes",
-         "periodic-fsync clause: see coverage.periodic"], extra=periodic_extra)
+         "periodic-fsync clause: theorems in Theorems/C01Periodic.lean over Persist/Periodic.lean, tied by coverage.periodic "
+         "(byte-threshold rotation and snapshots under the periodic policy: oracle only, not modelled)"], extra=periodic_extra, also=ALSO)
